@@ -19,6 +19,7 @@ CONSTANTS
   NameOrder,            \* sequence of all name tokens in byte order (filepath.Walk order)
   DEV_IgnoreRelToSrc,   \* in a dereferenced directory rules see the path relative to the external dir (cand. 9)
   DEV_NestedDstFsPath,  \* a dereferenced directory inside a dereferenced directory is named by its filesystem path (cand. 19)
+  DEV_LinkValidatedOnDisk, \* inside a dereferenced directory a link is validated at its filesystem path, not its slug position
   DEV_DerefSpecial      \* a link to a fifo is dereferenced like a file: os.Open blocks (cand. 11)
 
 DerefDepth == 3         \* nested walk frames before the model says "diverge"
@@ -40,7 +41,11 @@ E(k, name, m, t, c, tgt) == [k |-> k, name |-> name, m |-> m, t |-> t, c |-> c, 
 
 AbsOf(path, tgt) == IF IsAbsT(tgt) THEN JoinClean(Root, tgt) ELSE JoinClean(Parent(path), tgt)
 AllowedP(allow, at) == \E a \in allow : Under(at, a)
-ValidLinkP(root, allow, path, tgt) == Under(AbsOf(path, tgt), root) \/ AllowedP(allow, AbsOf(path, tgt))
+\* a relative target must stay inside root without climbing above it (fix d958749)
+LocalFrom(root, path, tgt) ==
+  Under(Parent(path), root) /\ Under(JoinClean(<<"#root">> \o SubSeq(Parent(path), Len(root) + 1, Len(path) - 1), tgt), <<"#root">>)
+ValidLinkP(root, allow, path, tgt) ==
+  (Under(AbsOf(path, tgt), root) /\ (IsAbsT(tgt) \/ LocalFrom(root, path, tgt))) \/ AllowedP(allow, AbsOf(path, tgt))
 
 \* resolveExternalLink(root, path): lexical join, Lstat, recurse on links
 RECURSIVE ResolveExt(_,_,_)
@@ -79,7 +84,7 @@ WalkNode(ctx, fr, lex, depth, isRoot) ==
         ELSE IF node.k = "f" THEN [out |-> <<E("f", arel, node.m, RoundT(node.t), node.c, <<>>)>>, st |-> "ok", walk |-> FALSE]
         ELSE IF node.k = "p" THEN [out |-> <<>>, st |-> "ok", walk |-> FALSE]            \* special file: skipped
         ELSE \* symlink
-          IF ValidLinkP(ctx.root, ctx.allow, lex, node.tgt)
+          IF ValidLinkP(ctx.root, ctx.allow, IF DEV_LinkValidatedOnDisk THEN lex ELSE mapped, node.tgt)
             THEN [out |-> <<E("l", arel, 777, RoundT(node.t), 0, node.tgt)>>, st |-> "ok", walk |-> FALSE]
           ELSE IF ~ctx.deref THEN [out |-> <<>>, st |-> "illegal", walk |-> FALSE]
           ELSE LET rs == ResolveExt(f, lex, ResolveFuel) IN
@@ -144,12 +149,19 @@ C20Bad(out, meta) ==
 \* C05 (a): every file body is the content of what the archive name denotes in the tree
 \* (through links only when dereferencing); (b) link entries stay inside the archive
 \* root (or are allow-listed); (c) names never leave the archive root
+\* a relative link entry read at its own position in the archive: the archive root is an
+\* anonymous directory, so climbing above it is leaving it even if the path re-enters
+\* a directory that happens to have the source directory's name
+ARoot == <<"#archive-root">>
+LinkInsideArchive(name, tgt) == ~IsAbsT(tgt) /\ Under(JoinClean(ARoot \o Parent(name), tgt), ARoot)
 C05Bad(f, src, opts, out) ==
   { <<"data", CatS(out[i].name)>> : i \in { j \in DOMAIN out : out[j].k = "f" /\
         LET r == ResAbs(f, src \o out[j].name, TRUE) IN
         ~(r.st = "ok" /\ f[r.p].k = "f" /\ f[r.p].c = out[j].c /\ (opts.deref \/ r.p = src \o out[j].name)) } }
   \cup { <<"link", CatS(out[i].name)>> : i \in { j \in DOMAIN out : out[j].k = "l" /\
-        LET at == AbsOf(src \o out[j].name, out[j].tgt) IN ~(Under(at, src) \/ AllowedP(opts.allow, at)) } }
+        ~( LinkInsideArchive(out[j].name, out[j].tgt)
+           \/ (IsAbsT(out[j].tgt) /\ Under(JoinClean(Root, out[j].tgt), src))          \* absolute in-tree links are stored as they are (pinned by the tests)
+           \/ AllowedP(opts.allow, AbsOf(src \o out[j].name, out[j].tgt)) ) } }
   \cup { <<"name", CatS(out[i].name)>> : i \in { j \in DOMAIN out : HasDotDot(out[j].name) \/ IsAbsT(out[j].name) } }
 
 \* out-of-tree links physically under src (the main frame), with their own path not excluded
